@@ -61,6 +61,12 @@ class Spec:
         self.links = [l for l in self.links if l[0] != c and l[2] != c]
         self.mapping = {n: t for n, t in self.mapping.items() if t[0] != c}
 
+    def prune(self):
+        """removes every placed model that has no pins at all; returns (removed ids, solver now empty)"""
+        gone = [c for c in self.present if not self.comps[c]["pins"]]
+        self.present = [c for c in self.present if c not in gone]
+        return gone, not self.present
+
     def raise_all(self):
         """maps every unmapped free pin under its own name; returns False if a name would clash"""
         mapped = set(self.mapping.values())
@@ -95,7 +101,9 @@ class Real:
         impl._CLASSES["am"] = AM
         for c, comp in enumerate(comps):
             n = len(comp["pins"])
-            if c % 2 == 0:
+            if n == 0:
+                m = L.Model()                                   # a placed model without pins (prune's target)
+            elif c % 2 == 0:
                 m = L.Model(pin_dic={L.Pin(p): i for p, i in zip(comp["pins"], comp["idx"])}, Smatrix=gen.mat_np(comp["S"], n, n))
             else:
                 # a block with a (dummy) parameter whose own default is 0.25: the matrix does not depend on it, but
@@ -215,6 +223,10 @@ def to_model_ops(comps, executed):
             ops.append(["connect", e[1], pid(e[1], e[2]), e[3], pid(e[3], e[4])]); idx.append(k)
         elif kind in ("cut", "remove"):
             ops.append([kind, e[1]]); idx.append(k)
+        elif kind == "prune":
+            # prune of a flat solver = remove_structure on every pinless model, in declaration order
+            for j, c in enumerate(e[1]):
+                ops.append(["remove", c]); idx.append(k if j == len(e[1]) - 1 else None)
         elif kind == "map":
             n = names.setdefault(e[1], len(names))
             ops.append(["map", n, e[2], pid(e[2], e[3])]); idx.append(k)
@@ -276,6 +288,8 @@ def model_compare(ctx, comps, executed, snaps, name, replay):
         return
     for j, step in enumerate(ans["steps"]):
         k = idx[j]
+        if k is None:
+            continue
         if k >= len(snaps) or snaps[k] is None:
             break
         real = canon_real(snaps[k], comps, names)
